@@ -33,6 +33,9 @@ func H_c06_pure() {
 	} else {
 		b = Source()
 		a = []byte(historyDocs[vp.ParamInt("hist", 0)%len(historyDocs)])
+		if hd := vp.ParamStr("histdoc", ""); hd != "" {
+			a = []byte(hd)
+		}
 	}
 	vp.Observe("src", b)
 	vp.Observe("hist", a)
